@@ -4,9 +4,10 @@ from hypothesis import strategies as st
 from vlib import hyp, fsgen, core, tool, run as vrun, e4ref, corrupt
 LEVEL = 'exploration'
 STEPS = ['tune2fs -L', 'tune2fs -O ^metadata_csum', 'tune2fs -O metadata_csum', 'tune2fs -U', 'tune2fs -O ^has_journal', 'tune2fs -m', 'tune2fs -O extent', 'tune2fs -I', 'tune2fs -O ^uninit_bg', 'tune2fs -Q usrquota',
-         'resize2fs grow', 'resize2fs shrink', 'resize2fs -M', 'resize2fs -b', 'resize2fs -s', 'e2fsck -fyD', 'e2fsck -fy', 'e2fsck -fy -E bmap2extent', 'debugfs write', 'debugfs rm', 'debugfs mkdir+ea', 'mke2fs', 'mke2fs other', 'undo-redo']
+         'resize2fs grow', 'resize2fs shrink', 'resize2fs -M', 'resize2fs -b', 'resize2fs -s', 'e2fsck -fyD', 'e2fsck -fy', 'e2fsck -fy -E bmap2extent', 'debugfs write', 'debugfs rm', 'debugfs mkdir+ea', 'mke2fs', 'mke2fs other', 'undo-redo', 'debugfs write big', 'debugfs write many']
 MODES = ['chain', 'chain', 'chain', 'shared-file', 'shared-file', 'flip', 'flip', 'unfinished', 'kill', 'wrong-device', 'dry-run']
 RULE = ('Hypothesis draws (configuration, recipe, 1-4 recording steps out of %s, each run with -z; mode out of {chain with one undo file per step, all steps appending to one undo file, single-bit damage of the undo file, '
+        '(one shared-file case in three starts the file with mke2fs, whose undo block size is 32 KiB) '
         'recording that ends abnormally (UNDO_IO_SIMULATE_UNFINISHED), recording killed at the N-th device/undo write, undo file applied to a different filesystem, e2undo -n}). '
         'chain/shared: after e2undo (in reverse order) the device must be byte-identical, over its original length, to the snapshot before the corresponding step (checked after every undo, not only at the end); '
         'flip: for sampled and header-exhaustive single-bit flips the outcome must be "refused and device unchanged" or "device == original"; unfinished: everything but the primary superblock equals the original and the superblock lost its VALID flag; '
@@ -51,6 +52,8 @@ def step_cmd(t, name, v, img, undo, env, cfg):
         return [t.e2fsck, '-z', undo] + name.split()[1:] + [img], None
     if name.startswith('debugfs'):
         if name.endswith('write'): scr = 'write %s u%d\n' % (os.path.join(env['blobs'], 'mid'), v)
+        elif name.endswith('write big'): scr = ''.join('write %s ub%d_%d\n' % (os.path.join(env['blobs'], 'big'), v, k) for k in range(1 + v % 4))     # 90-360 KB: spans several 32 KiB undo blocks
+        elif name.endswith('write many'): scr = 'mkdir um%d\n' % v + ''.join('write %s um%d/f%d\n' % (os.path.join(env['blobs'], 'mid' if k % 3 else 'small'), v, k) for k in range(10 + v % 60))
         elif name.endswith('rm'): scr = 'rm %s\n' % ['/big', '/mid', '/d1/d2/d3/deep', '/sparse'][v % 4]
         else: scr = 'mkdir ud%d\nea_set ud%d user.k %s\nsymlink ud%d/l %s\n' % (v, v, 'v' * (v % 200 + 1), v, 't' * (v % 300 + 1))
         return [t.debugfs, '-w', '-z', undo, '-f', '-', img], scr
@@ -70,6 +73,8 @@ def body(case, env):
     for f in os.listdir(d):
         if f.endswith('.e2undo'): os.unlink(os.path.join(d, f))
     steps = [(STEPS[i], v) for i, v in case['steps']]
+    if mode == 'shared-file' and case['seed'] % 3 == 0 and len(steps) >= 2 and not steps[0][0].startswith('mke2fs'):
+        steps[0] = ('mke2fs' if case['seed'] % 2 else 'mke2fs other', steps[0][1]); classes.append('shared-file-started-by-mke2fs')
     if mode in ('flip', 'unfinished', 'kill', 'wrong-device', 'dry-run'): steps = steps[:1]
     if any(n.startswith('e2fsck -fy') and n != 'e2fsck -fyD' for n, v in steps):
         try: corrupt.apply_summary(img, [(0, case['seed'] % 5, 3, 5, False), (2, case['seed'] % 3, 0, 1, False)])
